@@ -20,7 +20,7 @@ RULE = ("subsets: every non-empty subset of <= 3 (quick) / <= 4 (thorough) of th
         "construct_allowed_gate_sequences(...).construct_operation_sequences(). caller_owned_results: 1-4 generated steps in which "
         "a caller obtains a list from Surface17Layer (get_neighbors / get_edges / get_parity_group of a qubit, qubit_ids, "
         "data_qubit_ids, ancilla_qubit_ids) and modifies that list (extends it with another qubit's, clears, reverses, pops, "
-        "duplicates); afterwards all 24 single gates (acceptance + parking of every idle qubit) and up to 28 pairs of gates around "
+        "repeats its first element); afterwards all 24 single gates (acceptance + parking of every idle qubit) and up to 28 pairs of gates around "
         "the touched qubits are judged as in subsets. Non-trivial = at least two gates "
         "(subsets) / at least two steps of at least two gates each (generator); distinct = distinct canonical JSON of "
         "the case (edge order and orientation included).")
@@ -139,15 +139,15 @@ def body_touch(case, ctx):
                 continue               # nothing a caller could modify
             # the caller's own book-keeping on the list it received
             if t["how"] == "extend_other":
-                mine += call(t["api"], t["other"])
+                mine += list(call(t["api"], t["other"]))[:4]      # (bounded: a shared list must not grow geometrically)
             elif t["how"] == "clear":
                 mine.clear()
             elif t["how"] == "reverse":
                 mine.reverse()
             elif t["how"] == "pop" and mine:
                 mine.pop()
-            elif t["how"] == "duplicate":
-                mine.extend(list(mine))
+            elif t["how"] == "duplicate" and mine:
+                mine.append(mine[0])           # (one element, so that a shared list cannot grow geometrically over the cases)
     # every single gate (acceptance, parking of all idle qubits) and every pair of gates sharing a plaquette or a qubit
     for e in D.EDGES:
         check_subset(ctx, [e])
